@@ -97,13 +97,36 @@ def stream_table(fb, fname="io::file_char_stream"):
     for label, text in STREAM_TEXTS:
         ft = object()
 
-        def icpt(mc, c, a, tt, g, text=text, ft=ft):
+        pos = [0]
+
+        def icpt(mc, c, a, tt, g, text=text, ft=ft, pos=pos):
             if c.endswith("fs::File::open"):
                 return ok(ft)
             if (c.endswith("BufReader::new") or c.endswith("BufReader::<R>::new")) and a and a[0] is ft:
                 return ft
             if c.endswith("BufRead::lines") and a and a[0] is ft:
                 return machine.Iter([ok(l) for l in _rust_lines(text)])
+            if c.endswith("BufRead::read_line") and a and a[0] is ft and len(a) > 1 and isinstance(a[1], str):
+                # appends the next line INCLUDING its terminator (the last line may have none); Ok(number of bytes), 0 at the end
+                raw_ = getattr(mc, "cur_raw", None)
+                if raw_ is None or not isinstance(raw_[1], absint.Ptr):
+                    return NOT
+                i = pos[0]
+                if i >= len(text):
+                    return ok(0)
+                j = text.find("\n", i)
+                j = len(text) if j < 0 else j + 1
+                pos[0] = j
+                raw_[1].set(a[1] + text[i:j])
+                return ok(len(text[i:j].encode("utf-8")))
+            if c.endswith("Read::read_to_string") and a and a[0] is ft and len(a) > 1 and isinstance(a[1], str):
+                raw_ = getattr(mc, "cur_raw", None)
+                if raw_ is None or not isinstance(raw_[1], absint.Ptr):
+                    return NOT
+                rest = text[pos[0]:]
+                pos[0] = len(text)
+                raw_[1].set(a[1] + rest)
+                return ok(len(rest.encode("utf-8")))
             if c.endswith("fs::read_to_string"):
                 return ok(text)
             return NOT
